@@ -10,13 +10,17 @@ from ipaddress import ip_address
 
 from . import simloop
 
-HOSTNAME = {"v4lit": "192.0.2.{i}", "v6lit": "2001:db8::{i}", "v6scoped": "fe80::{i}%3", "v6badscope": "fe80::{i}%eth0",
+HOSTNAME = {"v4lit": "192.0.2.{i}", "v6lit": "2001:db8::{i}f", "v6scoped": "fe80::{i}%3", "v6badscope": "fe80::{i}%eth0",
             "bare": "dev{i}", "dotLocal": "dev{i}.local", "dotLocalDot": "dev{i}.local.", "fqdn": "dev{i}.example.com"}
 
 
 def addr_text(i: int, src: str, fam: str) -> str:
     n = {"mdns": 1, "os": 2}.get(src, 0)
     return f"10.{i}.{n}.1" if fam == "v4" else f"fd00:{i}:{n}::1"
+
+
+def mdns_v6(i: int) -> list[str]:
+    return [f"fe80::{i}:1%2", addr_text(i, "mdns", "v6")] if i % 2 else [addr_text(i, "mdns", "v6"), f"fe80::{i}:1%2"]
 
 
 class Env:
@@ -67,7 +71,8 @@ def run_case(hosts: list[dict]) -> dict:
         def ip_addresses_by_version(self, version):
             out = env.hosts[self.i]["mdns"]
             if version == IPVersion.V6Only:
-                return [ip_address(addr_text(self.i + 1, "mdns", "v6"))] if out in ("v6", "both") else []
+                # a device announces a link-local address (with the interface it was heard on) next to a routable one
+                return [ip_address(x) for x in mdns_v6(self.i + 1)] if out in ("v6", "both") else []
             if version == IPVersion.V4Only:
                 return [ip_address(addr_text(self.i + 1, "mdns", "v4"))] if out in ("v4", "both") else []
             raise AssertionError(version)
@@ -120,6 +125,10 @@ def expected_addrs(hosts: list[dict], exp: dict, names: list[str]) -> list[dict]
             text = names[i - 1].partition("%")[0]
             scope = {"v6scoped": 3, "v6badscope": 0, "v6lit": 0}.get(form)
             out.append({"address": text, "port": 6053, "fam": fam, "scope": scope})
+        elif src == "mdns" and fam == "v6":
+            # every IPv6 address of the answer, in the answer's order, before the IPv4 ones; link-local ones keep their scope
+            for x in mdns_v6(i):
+                out.append({"address": x.partition("%")[0], "port": 6053, "fam": "v6", "scope": int(x.partition("%")[2] or 0)})
         else:
             out.append({"address": addr_text(i, src, fam), "port": 6053, "fam": fam, "scope": 0 if fam == "v6" else None})
     return out
